@@ -54,7 +54,8 @@ Do(name, e) ==
     [] name = "PushEnd"   -> PushEnd(e.x) /\ PushRest
     [] name = "Sweep"     -> Sweep
     [] name = "KeepAlive" -> KeepAlive(e.x)
-    [] name = "Describe"  -> Describe
+    [] name = "Describe"  -> Describe /\ act'.k = e.k
+    [] name = "Misuse"    -> Misuse(e.x) /\ act'.how = e.how
 
 \* C03 StatOnlyAttached: the stat API lists exactly the attached network / GB28181 input and the attached subscribers
 Listed(i, s) == (IF i \in NetPubs \cup PsPubs THEN {i} ELSE {}) \cup {x \in Subs : s[x] = "in"}
